@@ -344,29 +344,41 @@ func lazyScenario(r *R) {
 type ptrT struct{ n int }
 
 func mapScenario(r *R) {
+	if r.Choose(5, "ktype") == 4 {
+		// interface-typed keys, one of them the nil interface (sync.Map accepts it)
+		r.Probe("map-interface-keys")
+		keys := []any{nil, 1, "k"}
+		if r.Choose(2, "vtype") == 0 {
+			mapDiff[any, int](r, "any", "int", keys, []int{0, 1, 2, 3})
+		} else {
+			mapDiff[any, any](r, "any", "any", keys, []any{nil, 1, "x", 2.5})
+		}
+		return
+	}
+	keys := []int{0, 1, 2}
 	switch r.Choose(5, "vtype") {
 	case 0:
-		mapDiff[int](r, "int", []int{0, 1, 2, 3})
+		mapDiff[int, int](r, "int", "int", keys, []int{0, 1, 2, 3})
 	case 1:
-		mapDiff[string](r, "string", []string{"", "a", "b", "c"})
+		mapDiff[int, string](r, "int", "string", keys, []string{"", "a", "b", "c"})
 	case 2:
 		p1, p2 := &ptrT{1}, &ptrT{2}
-		mapDiff[*ptrT](r, "ptr", []*ptrT{nil, p1, p2, p1})
+		mapDiff[int, *ptrT](r, "int", "ptr", keys, []*ptrT{nil, p1, p2, p1})
 	case 3:
 		e1, e2 := NewErr("m1"), NewErr("m2")
-		mapDiff[error](r, "error", []error{nil, e1, e2, e1})
+		mapDiff[int, error](r, "int", "error", keys, []error{nil, e1, e2, e1})
 	default:
-		mapDiff[any](r, "any", []any{nil, 1, "x", 2.5})
+		mapDiff[int, any](r, "int", "any", keys, []any{nil, 1, "x", 2.5})
 	}
 }
 
-func mapDiff[V any](r *R, vname string, vals []V) {
-	var m xsync.Map[int, V]
+func mapDiff[K comparable, V any](r *R, kname, vname string, keys []K, vals []V) {
+	var m xsync.Map[K, V]
 	var ref stdsync.Map
 	nops := 4 + r.Choose(24, "nops")
 	eq := func(a, b any) bool { return a == b }
 	isNilIface := func(v V) bool { return any(v) == nil }
-	call := func(op string, key int, f func() (any, bool, bool), g func() (any, bool)) bool {
+	call := func(op string, key K, f func() (any, bool, bool), g func() (any, bool)) bool {
 		// f: xsync (value, flag, -), g: sync
 		_, wasPresent := ref.Load(key)
 		hasValue := op != "CompareAndSwap" && op != "CompareAndDelete"
@@ -383,32 +395,32 @@ func mapDiff[V any](r *R, vname string, vals []V) {
 			xv, xf, _ = f()
 		}()
 		sv, sf := g()
-		r.Hist(op, key, fmt.Sprint(xv), xf, panicked)
+		r.Hist(op, fmt.Sprint(key), fmt.Sprint(xv), xf, panicked)
 		if panicked {
-			r.Logf("%s(%d) on xsync.Map[int,%s] PANICKED: %v   sync.Map: (%v, %v)", op, key, vname, pval, sv, sf)
+			r.Logf("%s(%v) on xsync.Map[%s,%s] PANICKED: %v   sync.Map: (%v, %v)", op, key, kname, vname, pval, sv, sf)
 			kind := "present-key"
 			if !wasPresent && (op == "Swap" || op == "Load" || op == "LoadAndDelete") {
 				kind = "absent-key"
 			} else if sv == nil {
 				kind = "nil-interface-value"
 			}
-			r.Violate("C18", "map/panic/"+op+"/"+kind, "xsync.Map[int,%s].%s(%d) panicked (%v) where sync.Map returns (%v, %v)", vname, op, key, pval, sv, sf)
+			r.Violate("C18", "map/panic/"+op+"/"+kind, "xsync.Map[%s,%s].%s(%v) panicked (%v) where sync.Map returns (%v, %v)", kname, vname, op, key, pval, sv, sf)
 			return false
 		}
-		r.Logf("%s(%d) on xsync.Map[int,%s] -> (%v, %v)   sync.Map: (%v, %v)", op, key, vname, xv, xf, sv, sf)
+		r.Logf("%s(%v) on xsync.Map[%s,%s] -> (%v, %v)   sync.Map: (%v, %v)", op, key, kname, vname, xv, xf, sv, sf)
 		want := sv
 		if sv == nil {
 			var zero V
 			want = any(zero)
 		}
 		if xf != sf || (hasValue && !eq(xv, want)) {
-			r.Violate("C18", "map/differs/"+op, "xsync.Map[int,%s].%s(%d) returned (%v, %v), sync.Map returned (%v, %v)", vname, op, key, xv, xf, sv, sf)
+			r.Violate("C18", "map/differs/"+op, "xsync.Map[%s,%s].%s(%v) returned (%v, %v), sync.Map returned (%v, %v)", kname, vname, op, key, xv, xf, sv, sf)
 			return false
 		}
 		return true
 	}
 	for i := 0; i < nops && !r.Failed(); i++ {
-		key := r.Choose(3, "key")
+		key := keys[r.Choose(len(keys), "key")]
 		v := vals[r.Choose(len(vals), "val")]
 		v2 := vals[r.Choose(len(vals), "val2")]
 		if _, ok := ref.Load(key); !ok {
@@ -421,7 +433,7 @@ func mapDiff[V any](r *R, vname string, vals []V) {
 		case 0:
 			m.Store(key, v)
 			ref.Store(key, v)
-			r.Logf("Store(%d, %v)", key, v)
+			r.Logf("Store(%v, %v)", key, v)
 		case 1:
 			call("Load", key, func() (any, bool, bool) { a, b := m.Load(key); return a, b, false }, func() (any, bool) { return ref.Load(key) })
 		case 2:
@@ -431,7 +443,7 @@ func mapDiff[V any](r *R, vname string, vals []V) {
 		case 4:
 			m.Delete(key)
 			ref.Delete(key)
-			r.Logf("Delete(%d)", key)
+			r.Logf("Delete(%v)", key)
 		case 5:
 			call("Swap", key, func() (any, bool, bool) { a, b := m.Swap(key, v); return a, b, false }, func() (any, bool) { return ref.Swap(key, v) })
 		case 6:
@@ -453,25 +465,29 @@ func mapDiff[V any](r *R, vname string, vals []V) {
 						pval = p
 					}
 				}()
-				m.Range(func(k int, v V) bool { xs = append(xs, fmt.Sprintf("%d=%v", k, any(v))); return true })
+				m.Range(func(k K, v V) bool { xs = append(xs, fmt.Sprintf("%v=%v", any(k), any(v))); return true })
 			}()
 			ref.Range(func(k, v any) bool {
 				if v == nil {
 					var zero V
 					v = any(zero)
 				}
-				ss = append(ss, fmt.Sprintf("%d=%v", k, v))
+				ss = append(ss, fmt.Sprintf("%v=%v", k, v))
 				return true
 			})
 			sort.Strings(xs)
 			sort.Strings(ss)
 			r.Hist("Range", fmt.Sprint(xs), panicked)
 			if panicked {
-				r.Violate("C18", "map/panic/Range/nil-interface-value", "xsync.Map[int,%s].Range panicked (%v); sync.Map yields %v", vname, pval, ss)
+				kind := "nil-interface-value"
+				if _, nilKey := ref.Load(nil); nilKey {
+					kind = "nil-interface-key"
+				}
+				r.Violate("C18", "map/panic/Range/"+kind, "xsync.Map[%s,%s].Range panicked (%v); sync.Map yields %v", kname, vname, pval, ss)
 				return
 			}
 			if fmt.Sprint(xs) != fmt.Sprint(ss) {
-				r.Violate("C18", "map/differs/Range", "xsync.Map[int,%s].Range yielded %v, sync.Map %v", vname, xs, ss)
+				r.Violate("C18", "map/differs/Range", "xsync.Map[%s,%s].Range yielded %v, sync.Map %v", kname, vname, xs, ss)
 				return
 			}
 		}
